@@ -10,8 +10,7 @@ Open Scope Z_scope.
 (** (a) Whatever the run loop went through before and whatever close requests and events follow, the
     first close request is the recorded cause; after the fan-out with it every API call (open, accept,
     datagram, Read/Write on any stream not shut down before) returns that cause or the object's own terminal
-    result, none parks. Exceptions, as the code has them: datagrams queued before are still handed out, and
-    SendDatagram succeeds while its queue has room (see [C17_send_datagram_after_close_refuted]). *)
+    result, none parks. One exception, as the code has it: datagrams queued before the close are still handed out. *)
 Theorem C17_single_cause : forall s l1 ce l2,
   closeErr (run s l1) = None ->
   closeErr (run s (l1 ++ EvClose ce :: l2)) = Some ce /\
@@ -20,10 +19,33 @@ Theorem C17_single_cause : forall s l1 ce l2,
     let r := api_call (fanout a e) c in
     r <> RBlock /\
     (r = RErr e \/ own_result r \/
-     (c = CReceiveDatagram /\ a_rcvQueued a = true /\ r = ROk) \/
-     (c = CSendDatagram /\ a_sendRoom a = true /\ r = ROk)).
+     (c = CReceiveDatagram /\ a_rcvQueued a = true /\ r = ROk)).
 Proof. exact single_cause. Qed.
 Print Assumptions C17_single_cause.
+
+(** ... for ANY NUMBER of goroutines parked in the same call: [ps] is a list of parked calls in which a call may
+    occur several times (three AcceptStream callers, two AcceptUniStream callers, several OpenStreamSync waiters,
+    several ReceiveDatagram callers, readers on different streams ...; at most one per stream direction, as the
+    API requires). Every one of them is woken by the fan-out and returns the cause. *)
+Theorem C17_single_cause_parked : forall a e ps, fresh_streams a -> Forall (call_in_range a) ps -> one_per_stream ps ->
+  woken ps = ps /\
+  Forall (fun c => let r := api_call (fanout a e) c in
+                   r <> RBlock /\
+                   (r = RErr e \/ own_result r \/ (c = CReceiveDatagram /\ a_rcvQueued a = true /\ r = ROk))) ps.
+Proof. exact single_cause_parked. Qed.
+Print Assumptions C17_single_cause_parked.
+
+(** why the maps and the datagram queue must close a channel: a single token wakes one of two waiters *)
+Theorem C17_one_token_leaves_parked : forall wk c, wk c = WakeOne -> woken_from wk [] [c; c] = [c].
+Proof. exact one_token_leaves_parked. Qed.
+Print Assumptions C17_one_token_leaves_parked.
+
+Example C17_many_acceptors_woken :
+  let ps := [CAcceptStream; CAcceptStream; CAcceptStream; CAcceptUniStream; CAcceptUniStream; COpenStreamSync; COpenStreamSync;
+             CReceiveDatagram; CReceiveDatagram; CRead 0; CRead 1] in
+  one_per_stream ps /\ woken ps = ps.
+Proof. cbv zeta. split; [|reflexivity]. unfold one_per_stream. cbn. repeat constructor; cbn; intuition discriminate. Qed.
+Print Assumptions C17_many_acceptors_woken.
 
 (** the cause may also be a timeout the loop finds itself; it is recorded the same way and is one of the two timeouts *)
 Theorem C17_single_cause_timeout : forall s l1 now pto ce l2,
@@ -34,17 +56,27 @@ Theorem C17_single_cause_timeout : forall s l1 now pto ce l2,
 Proof. exact single_cause_timeout. Qed.
 Print Assumptions C17_single_cause_timeout.
 
-(** REFUTED sub-claim of (a): "every later datagram call returns the cause". *)
-Theorem C17_send_datagram_after_close_refuted : exists a e, api_call (fanout a e) CSendDatagram = ROk.
-Proof. exact send_datagram_after_close_ok. Qed.
-Print Assumptions C17_send_datagram_after_close_refuted.
+(** every later SendDatagram returns the cause, whether or not its queue has room
+    (was refuted before datagramQueue.Add looked at the closed queue: finding F1) *)
+Theorem C17_send_datagram_after_close : forall a e, api_call (fanout a e) CSendDatagram = RErr e.
+Proof. exact send_datagram_after_close. Qed.
+Print Assumptions C17_send_datagram_after_close.
 
-(** (b) A CONNECTION_CLOSE is produced iff the close is local, not immediate, and (server or a packet was
-    sent); its kind and code are the cause's (anything else: INTERNAL_ERROR). *)
-Theorem C17_close_frame_due : forall client sentFirstPacket ce,
-  ((exists isApp code, close_action client sentFirstPacket ce = ActSendClose isApp code) <->
-   (is_remote (mapped_err ce) = false /\ ce_immediate ce = false /\ (client = false \/ sentFirstPacket = true))) /\
-  (forall isApp code, close_action client sentFirstPacket ce = ActSendClose isApp code ->
+(** regression: the former counterexample (queue with room, closed with an idle timeout) *)
+Example C17_send_datagram_after_close_regression :
+  api_call (fanout {| a_mapErr := None; a_dgErr := None; a_rstreams := []; a_sstreams := []; a_canOpen := false;
+                      a_canAccept := false; a_rcvQueued := false; a_sendRoom := true |} EIdle) CSendDatagram = RErr EIdle.
+Proof. reflexivity. Qed.
+Print Assumptions C17_send_datagram_after_close_regression.
+
+(** (b) A CONNECTION_CLOSE is produced iff the close is local, not immediate, not a stateless reset / abandoned
+    attempt, (server or a packet was sent) and the anti-amplification limit is not used up; its kind and code
+    are the cause's (anything else: INTERNAL_ERROR). *)
+Theorem C17_close_frame_due : forall client sentFirstPacket ampl ce,
+  ((exists isApp code, close_action client sentFirstPacket ampl ce = ActSendClose isApp code) <->
+   (is_remote (mapped_err ce) = false /\ ce_immediate ce = false /\ silent_err (mapped_err ce) = false /\
+    (client = false \/ sentFirstPacket = true) /\ ampl = false)) /\
+  (forall isApp code, close_action client sentFirstPacket ampl ce = ActSendClose isApp code ->
      match mapped_err ce with
      | EApp _ c => isApp = true /\ code = c
      | ETransport _ c => isApp = false /\ code = c
@@ -60,28 +92,47 @@ Print Assumptions C17_internal_error_is_1.
 (** for each request the code can issue: which of the three actions results *)
 Theorem C17_code_request_frames : forall ce client sf, code_request ce -> (client = false \/ sf = true) ->
   match ce_err ce, ce_immediate ce with
-  | EApp false c, false => close_action client sf ce = ActSendClose true c
-  | ETransport false c, false => close_action client sf ce = ActSendClose false c
-  | EOther _, false | EStatelessReset, false | ERecreate, false => close_action client sf ce = ActSendClose false rl_InternalError
-  | EApp true _, _ | ETransport true _, _ => close_action client sf ce = ActReplaceClosedNil
-  | _, _ => close_action client sf ce = ActRemoveAll
+  | EApp false c, false => close_action client sf false ce = ActSendClose true c
+  | ETransport false c, false => close_action client sf false ce = ActSendClose false c
+  | EOther _, false => close_action client sf false ce = ActSendClose false rl_InternalError
+  | EApp true _, _ | ETransport true _, _ => close_action client sf false ce = ActReplaceClosedNil
+  | _, _ => close_action client sf false ce = ActRemoveAll
   end.
 Proof. exact code_request_frames. Qed.
 Print Assumptions C17_code_request_frames.
 
 (** timeouts found by the loop never put anything on the wire *)
-Theorem C17_timeouts_silent : forall s now pto ce client sf a c,
+Theorem C17_timeouts_silent : forall s now pto ce client sf ampl a c,
   closeErr s = None -> closeErr (step s (EvWake now pto)) = Some ce ->
-  close_action client sf ce <> ActSendClose a c.
+  close_action client sf ampl ce <> ActSendClose a c.
 Proof. exact timeouts_silent. Qed.
 Print Assumptions C17_timeouts_silent.
 
-(** REFUTED sub-claim of (b): "a stateless reset / an attempt abandoned after Version Negotiation sends nothing". *)
-Theorem C17_silent_causes_refuted :
-  exists ce, code_request ce /\ (ce_err ce = EStatelessReset \/ ce_err ce = ERecreate) /\
-    forall client, close_action client true ce = ActSendClose false rl_InternalError.
-Proof. exact silent_causes_refuted. Qed.
-Print Assumptions C17_silent_causes_refuted.
+(** every request of the code whose cause is a timeout, a stateless reset (detected by the transport or by the
+    connection itself), a version-negotiation outcome (failure or re-creation), a cancelled dial or a close by
+    the peer sends nothing (was refuted for the reset detected inside the connection and for the re-creation:
+    findings F4, F5) *)
+Theorem C17_silent_causes : forall ce client sf ampl a c, code_request ce ->
+  match ce_err ce with
+  | EIdle | EHsTimeout | EStatelessReset | EVersionNeg | ERecreate | ENil => True
+  | EApp r _ | ETransport r _ => r = true
+  | _ => False
+  end ->
+  close_action client sf ampl ce <> ActSendClose a c.
+Proof. exact silent_causes. Qed.
+Print Assumptions C17_silent_causes.
+
+(** regression: the former counterexamples now remove the connection IDs and send nothing *)
+Example C17_silent_causes_regression : forall client,
+  close_action client true false {| ce_err := EStatelessReset; ce_immediate := false |} = ActRemoveAll /\
+  close_action client true false {| ce_err := ERecreate; ce_immediate := false |} = ActRemoveAll.
+Proof. intros []; split; reflexivity. Qed.
+Print Assumptions C17_silent_causes_regression.
+
+(** while the anti-amplification limit is used up nothing is sent either *)
+Theorem C17_amplification_limited_silent : forall client sf ce a c, close_action client sf true ce <> ActSendClose a c.
+Proof. exact amplification_limited_silent. Qed.
+Print Assumptions C17_amplification_limited_silent.
 
 (** the stand-in of a locally closed connection answers packet n (n-th after the close) iff n is a power of two *)
 Theorem C17_closed_conn_backoff : forall n, 0 < n < 2 ^ 32 ->
@@ -148,33 +199,49 @@ Qed.
 Print Assumptions C17_keepalive_prevents_idle.
 
 (** applyTP (Go: applyTransport-Params) yields 0 <= keepAliveInterval <= idleTimeout/2, so the PING leaves half of the period for its answer *)
-Theorem C17_keepalive_interval : forall s p pto, 0 <= c_maxIdleTimeout (cf s) -> 0 <= c_keepAlivePeriod (cf s) -> 0 <= pto ->
-  sane (applyTP s p) /\ 2 * kaEff (applyTP s p) pto <= idleEff (applyTP s p) pto + 1.
+Theorem C17_keepalive_interval : forall s p a pto, 0 <= c_maxIdleTimeout (cf s) -> 0 <= c_keepAlivePeriod (cf s) -> 0 <= pto ->
+  sane (applyTP s p a) /\ 2 * kaEff (applyTP s p a) pto <= idleEff (applyTP s p a) pto + 1.
 Proof.
-  intros s p pto Hi Hk Hp. destruct (applyTP_sane s p Hi Hk) as [S K]. split; [exact S|].
+  intros s p a pto Hi Hk Hp. destruct (applyTP_sane s p a Hi Hk) as [S K]. split; [exact S|].
   apply ka_half; [exact Hp| |exact K]. destruct S as [S1 S2]. apply (Z.le_trans _ _ _ S1 S2).
 Qed.
 Print Assumptions C17_keepalive_interval.
 
-(** (c) routing entries: whatever close the loop processed, nothing is registered any more once the closing
-    period is over (and nothing at all for timeouts / destroy). *)
-Theorem C17_routing_released : forall client sf ce elapsed expiry,
-  (expiry <= elapsed -> exit_routing client sf (ExitLoop ce) elapsed expiry = 0) /\
-  (ce_immediate ce = true -> is_remote (mapped_err ce) = false -> exit_routing client sf (ExitLoop ce) elapsed expiry = 0).
+(** ... and half of the period the PEER advertised, even where that is below the lower bound (5 s) applied to the
+    own idle timer: the PINGs keep the peer from timing out (was violated: finding F3) *)
+Theorem C17_keepalive_respects_peer : forall s p a, 0 < a -> kaInterval (applyTP s p a) <= a / 2.
+Proof. exact applyTP_respects_peer. Qed.
+Print Assumptions C17_keepalive_respects_peer.
+
+(** regression: own idle timeout 15 s, KeepAlivePeriod 7.5 s, peer advertises 2 s (parsed as 5 s): interval 1 s, not 2.5 s *)
+Example C17_keepalive_respects_peer_regression :
+  kaInterval (applyTP (init {| c_client := true; c_keepAlivePeriod := 7500; c_maxIdleTimeout := 15000; c_hsIdleTimeout := 5000 |} 1) 5000 2000) = 1000.
+Proof. reflexivity. Qed.
+Print Assumptions C17_keepalive_respects_peer_regression.
+
+(** (c) routing entries: whatever the close, nothing is registered any more once the closing period is over
+    (and nothing at all for timeouts / destroy / stateless resets / abandoned attempts). *)
+Theorem C17_routing_released : forall client sf ampl ce elapsed expiry,
+  (expiry <= elapsed -> exit_routing client sf ampl ce elapsed expiry = 0) /\
+  (ce_immediate ce = true \/ silent_err (mapped_err ce) = true -> is_remote (mapped_err ce) = false ->
+   exit_routing client sf ampl ce elapsed expiry = 0).
 Proof. exact routing_released. Qed.
 Print Assumptions C17_routing_released.
 
-(** REFUTED sub-claim of (c): when run() returns before its loop (StartHandshake fails) the connection stays in
-    the routing table for ever and streams / datagram queue are never closed. *)
-Theorem C17_early_exit_leaks_refuted : exists x, forall client sf elapsed expiry,
-  exit_routing client sf x elapsed expiry <> 0 /\ exit_fanout x = None.
-Proof. exists (ExitEarly (EOther 0)). intros. split; [cbn; discriminate | reflexivity]. Qed.
-Print Assumptions C17_early_exit_leaks_refuted.
+(** a handshake that cannot even be started (StartHandshake fails) goes through the same close path: nothing is
+    sent, nothing stays registered, API objects and context get the very error Dial returns
+    (was refuted when run() returned before its loop: finding F2) *)
+Theorem C17_start_failure_released : forall client sf ampl t elapsed expiry a c,
+  exit_routing client sf ampl (start_failure (EOther t)) elapsed expiry = 0 /\
+  exit_fanout (start_failure (EOther t)) = EOther t /\ ctx_cause (start_failure (EOther t)) = EOther t /\
+  close_action client sf ampl (start_failure (EOther t)) <> ActSendClose a c.
+Proof. exact start_failure_released. Qed.
+Print Assumptions C17_start_failure_released.
 
 (** ** Non-vacuity *)
 
 Definition ex_cfg : cfg := {| c_client := true; c_keepAlivePeriod := 4000; c_maxIdleTimeout := 10000; c_hsIdleTimeout := 5000 |}.
-Definition ex_s : st := step (init ex_cfg 1000) (EvHsComplete 30000).
+Definition ex_s : st := step (init ex_cfg 1000) (EvHsComplete 30000 30000).
 
 (** a history that ends in the idle timeout, exactly at the bound of [C17_idle_not_early] *)
 Example C17_idle_reachable :
@@ -205,6 +272,6 @@ Print Assumptions C17_keepalive_rounds_exist.
 Example C17_first_of_two :
   let l := [EvRecv 2000; EvClose {| ce_err := EApp false 7; ce_immediate := false |}; EvClose {| ce_err := EIdle; ce_immediate := true |}; EvWake 99999 1] in
   closeErr (run ex_s l) = Some {| ce_err := EApp false 7; ce_immediate := false |} /\
-  close_action true true {| ce_err := EApp false 7; ce_immediate := false |} = ActSendClose true 7.
+  close_action true true false {| ce_err := EApp false 7; ce_immediate := false |} = ActSendClose true 7.
 Proof. vm_compute. split; reflexivity. Qed.
 Print Assumptions C17_first_of_two.
